@@ -533,6 +533,7 @@ func parentMain(propID, tier string, seed uint64, outPath string, only *WireCase
 		close(results)
 	}()
 	seen := map[string]bool{}
+	sigCount := map[string]int{}
 	nViol := 0
 	for it := range results {
 		res.Evaluations++
@@ -569,7 +570,9 @@ func parentMain(propID, tier string, seed uint64, outPath string, only *WireCase
 		}
 		if len(unlisted) > 0 {
 			nViol++
-			if len(res.Violations) < 20 {
+			sig := unlisted[0].Kind + "/" + unlisted[0].Check + " " + unlisted[0].Entry
+			sigCount[sig]++
+			if sigCount[sig] <= 3 && len(res.Violations) < 40 {
 				v := Violation{Case: it.wc, Failures: unlisted, Sample: it.oc.Sample}
 				v.Replay = filepath.Join(verifDir(), "replays", fmt.Sprintf("%s-%d-%s-%d.json", propID, seed, sanitize(it.wc.Gen), it.wc.Idx))
 				os.MkdirAll(filepath.Dir(v.Replay), 0o755)
@@ -597,6 +600,14 @@ func parentMain(propID, tier string, seed uint64, outPath string, only *WireCase
 	}
 	for _, v := range res.Violations {
 		fmt.Printf("FAILING-INPUT property=%s replay=%s :: %s\n", propID, v.Replay, summarize(v.Failures))
+	}
+	sigs := make([]string, 0, len(sigCount))
+	for sg := range sigCount {
+		sigs = append(sigs, sg)
+	}
+	sort.Strings(sigs)
+	for _, sg := range sigs {
+		fmt.Printf("failure-signature: %d x %s\n", sigCount[sg], sg)
 	}
 	fmt.Printf("harness: property=%s tier=%s seed=%d evaluations=%d distinct_nontrivial=%d violations=%d wall=%.1fs truncated=%v\n",
 		propID, tier, seed, res.Evaluations, res.DistinctNontrivial, nViol, res.WallS, res.Truncated)
